@@ -65,7 +65,7 @@ Proof. intros [I HV]. split; [exact I | exact HV]. Qed.
 
 Theorem step_good i o : good (i_st i) -> good (i_st (snd (fst (step cap pol smp i o)))).
 Proof.
-  intros G. destruct o as [e|e| |ep raw|id|f|a b]; cbn [step].
+  intros G. destruct o as [e|e| |ep raw|id|f|a b|]; cbn [step].
   - destruct (guard i e true); cbn [fst snd]; auto.
     destruct (process cap (policy_fn pol) (aput (a_id e) e (i_es i)) (i_st i) e) as [[r bl] st'] eqn:E.
     pose proof (process_good _ _ _ _ _ _ _ G E) as G'. destruct r; cbn [fst snd i_st]; exact G'.
@@ -81,6 +81,7 @@ Proof.
   - destruct (mem a (i_proc i) && mem b (i_proc i)); cbn [fst snd]; [|exact G].
     pose proof (fc_cached_core cap (i_st i) a b) as SC.
     unfold fc_cached in *. destruct (cache_get (a, b) (l_fcc (i_st i))); cbn [fst snd i_st]; destruct G as [I HV]; split; auto.
+  - cbn [fst snd]. exact G.
 Qed.
 
 Theorem run_good : forall ops i, good (i_st i) -> good (i_st (run_inst cap pol smp i ops)).
